@@ -27,7 +27,11 @@ Violated(e) ==
     [] e.q = "dict_import" -> IF EqImp(e.obs, Import(e.d)) THEN {} ELSE {"C10"}
     [] e.q = "json_import" -> IF EqImp(e.obs, Import(e.d)) THEN {} ELSE {"C11"}
     [] e.q = "graph" -> IF e.obs.nodes = e.iter /\ e.obs.edges = EdgesAmong(e.ch, e.iter) THEN {}
-                        ELSE {IF e.kind = "mermaid" THEN "C13" ELSE "C12"}
+                        ELSE IF e.kind = "mermaid" THEN {"C13"}
+                        \* the listed known finding of DotExporter: the only difference are edges into stopped children
+                        ELSE IF e.obs.nodes = e.iter /\ SelectSeq(e.obs.edges, LAMBDA x: x[2] \notin SetOf(e.st)) = EdgesAmong(e.ch, e.iter)
+                             THEN {"C12", "stop_edge_only"}
+                        ELSE {"C12"}
 TInit == l = 1
 TNext == l <= Len(Trace) /\ PrintT(<<"J", l, Trace[l].id, Violated(Trace[l])>>) /\ l' = l + 1
 Accepted == TLCGet("stats").diameter - 1 = Len(Trace)
